@@ -9,6 +9,7 @@ CONSTANTS
   MaxBurst = 0
   BurstReps = 1
   Opts = {}
+  Anns = {}
   Depth = 1
 INVARIANT Inv
 CONSTRAINT EmitAll
